@@ -19,19 +19,19 @@ import (
 )
 
 type PropCfg struct {
-	Pkg      string   `json:"pkg"`      // package dir of the replay harness ("." or "stanza")
-	Funcs    []string `json:"funcs"`    // functions under contract in this property's closure
-	UseScan  []FrameScanCfg `json:"use_scan"` // fields that only the listed functions may touch at all (guarded state)
-	DepSkip  []string `json:"dep_skip"` // label prefixes of dependency clauses that are verified under their own property only
-	Deps     []string `json:"deps"`     // functions whose whole contract (all labels) is re-verified here because this property's proofs rely on it
-	Lemmas   []string `json:"lemmas"`   // lemma labels
-	Replay   string   `json:"replay"`   // replay harness name (file replay/<name>_replay_test.go)
-	Level    string   `json:"level"`    // proof | other
-	Bounded  []string `json:"bounded"`  // descriptions of bounded stand-ins (never counted as proved)
-	Undecided []string `json:"undecided"` // clauses of the property this family does not decide
-	CallScan  []CallScanCfg  `json:"call_scan"`  // functions that only the listed functions (and helpers inlined into them) may call: their `at call` assertions cover every call
-	FrameScan []FrameScanCfg `json:"frame_scan"` // fields that only the listed functions may store to
-	AlwaysReplay bool  `json:"always_replay"` // the harness carries a bounded stand-in: run it on every check
+	Pkg          string         `json:"pkg"`           // package dir of the replay harness ("." or "stanza")
+	Funcs        []string       `json:"funcs"`         // functions under contract in this property's closure
+	UseScan      []FrameScanCfg `json:"use_scan"`      // fields that only the listed functions may touch at all (guarded state)
+	DepSkip      []string       `json:"dep_skip"`      // label prefixes of dependency clauses that are verified under their own property only
+	Deps         []string       `json:"deps"`          // functions whose whole contract (all labels) is re-verified here because this property's proofs rely on it
+	Lemmas       []string       `json:"lemmas"`        // lemma labels
+	Replay       string         `json:"replay"`        // replay harness name (file replay/<name>_replay_test.go)
+	Level        string         `json:"level"`         // proof | other
+	Bounded      []string       `json:"bounded"`       // descriptions of bounded stand-ins (never counted as proved)
+	Undecided    []string       `json:"undecided"`     // clauses of the property this family does not decide
+	CallScan     []CallScanCfg  `json:"call_scan"`     // functions that only the listed functions (and helpers inlined into them) may call: their `at call` assertions cover every call
+	FrameScan    []FrameScanCfg `json:"frame_scan"`    // fields that only the listed functions may store to
+	AlwaysReplay bool           `json:"always_replay"` // the harness carries a bounded stand-in: run it on every check
 }
 
 type CallScanCfg struct {
@@ -259,9 +259,9 @@ func cmdCheck(args []string) int {
 	}
 	// generate
 	type unitRes struct {
-		key  string
-		u    *vc.Unit
-		err  error
+		key string
+		u   *vc.Unit
+		err error
 	}
 	isDep := map[string]bool{}
 	for _, d := range cfg.Deps {
@@ -710,6 +710,21 @@ func cmdCheck(args []string) int {
 		for _, n := range sortedKeys(notes) {
 			assumptions = append(assumptions, "note: "+n)
 		}
+		// A method reached through an interface is called against the interface's contract; what its own contract
+		// requires of the receiver's *state* beyond that is not checked at those calls (no behavioural-subtyping
+		// obligation): list every such clause.
+		for _, k := range funcs {
+			fc := p.CS.Funcs[k]
+			if fc == nil || !strings.HasPrefix(k, "(") || len(fc.Params) == 0 {
+				continue
+			}
+			recvField := regexp.MustCompile(`(^|[^A-Za-z0-9_.])` + regexp.QuoteMeta(fc.Params[0]) + `\.[A-Za-z_]`)
+			for _, r := range fc.Requires {
+				if recvField.MatchString(r.Src) {
+					assumptions = append(assumptions, fmt.Sprintf("receiver-state precondition of %s (`%s`) is assumed at calls through an interface: it is established by the library's own call protocol (constructor, Connect before use), which is not machine-checked", k, r.Src))
+				}
+			}
+		}
 		tb := sortedKeys(trusted)
 		for _, t := range sortedKeys(unspec) {
 			tb = append(tb, "UNSPECIFIED "+t)
@@ -752,23 +767,23 @@ func cmdCheck(args []string) int {
 		}
 		cov := map[string]interface{}{
 			"repo_contracts_used_at_call_sites": assumedRepo,
-			"obligations": nObl, "discharged": nDis,
-			"checker_cmd":  fmt.Sprintf("%s/bin/check %s %s", verifDir, *prop, *tier),
-			"trusted_base": tb,
-			"samples":      samples,
+			"obligations":                       nObl, "discharged": nDis,
+			"checker_cmd":              fmt.Sprintf("%s/bin/check %s %s", verifDir, *prop, *tier),
+			"trusted_base":             tb,
+			"samples":                  samples,
 			"functions_under_contract": funcs,
-			"lemmas":       cfg.Lemmas,
-			"by_solver":    bySolver,
-			"solver_seconds": roundMap(solverTime),
-			"vacuity_covers": covers, "vacuity_covers_reachable": coversOK,
+			"lemmas":                   cfg.Lemmas,
+			"by_solver":                bySolver,
+			"solver_seconds":           roundMap(solverTime),
+			"vacuity_covers":           covers, "vacuity_covers_reachable": coversOK,
 			"unreachable_return_paths": deadReturns,
-			"failed_obligations": failedNames(failed),
-			"open_known_findings": len(knownHit),
-			"bounded_standins": cfg.Bounded,
-			"replay_cases_run": replayed,
-			"retried_undecided": retried,
-			"all_obligations": reports,
-			"explanation": fmt.Sprintf("weakest-precondition style VCs generated by govc from go/ssa of %s's working tree for %d functions under contract; each obligation raced on z3 5.1.0, z3 4.8.12, cvc5 1.0.3 (first solver starts alone, the others join after 1.5 s; timeout %s; quick tier: up to 12 undecided cases are asked once more with three times the budget)", *repo, len(cfg.Funcs), timeout),
+			"failed_obligations":       failedNames(failed),
+			"open_known_findings":      len(knownHit),
+			"bounded_standins":         cfg.Bounded,
+			"replay_cases_run":         replayed,
+			"retried_undecided":        retried,
+			"all_obligations":          reports,
+			"explanation":              fmt.Sprintf("weakest-precondition style VCs generated by govc from go/ssa of %s's working tree for %d functions under contract; each obligation raced on z3 5.1.0, z3 4.8.12, cvc5 1.0.3 (first solver starts alone, the others join after 1.5 s; timeout %s; quick tier: up to 12 undecided cases are asked once more with three times the budget)", *repo, len(cfg.Funcs), timeout),
 		}
 		ev := map[string]interface{}{
 			"property_id": *prop, "tier": *tier, "seed": seed, "level": level, "coverage": cov, "assumptions": assumptions,
